@@ -91,7 +91,7 @@ def handleMergeDocs (cmd : String) (rest : List String) : Option String :=
       let a := Gedcom.labelList 0 l
       let b := Gedcom.labelList a.2 r
       let res := m.map (mdRes (Gedcom.MergeD.indisOf a.1) (Gedcom.MergeD.indisOf b.1))
-      match Gedcom.MergeD.mergeDocs res a.1 b.1 ⟨b.2, [], false, false⟩ with
+      match Gedcom.MergeD.mergeDocs res a.1 b.1 { next := b.2, writes := [], oof := false } with
       | .error => some "error"
       | .panic => some "panic"
       | .outOfFuel => some "oof"
